@@ -206,6 +206,7 @@ structure Obs where
   faults : Bool := false
   exited : Bool := false
   pubRets : List (Nat × String) := []
+  putErrs : List Nat := []             -- publications whose Put returned an error (the loop's own record)
 
 def intersects (a b : List Nat) : Bool := a.any fun x => b.contains x
 
@@ -264,7 +265,8 @@ def judge (sc : Scenario) (evs : List (Proc × Ev)) : List String :=
       let exps := match ttl with
         | some t => if isOk then (p, o.now + t) :: o.exps else o.exps
         | none => o.exps
-      { o with log := o.log ++ [p], okLog := if isOk then o.okLog ++ [p] else o.okLog, store := store, exps := exps, fanCur := some p }
+      let putErrs := if po == .err then p :: o.putErrs else o.putErrs
+      { o with log := o.log ++ [p], okLog := if isOk then o.okLog ++ [p] else o.okLog, store := store, exps := exps, fanCur := some p, putErrs := putErrs }
     | .fan i p sendOk flushOk =>
       let o := match p with
         | some q => { o with live := o.live ++ [(i, q)] }
@@ -313,7 +315,16 @@ def judge (sc : Scenario) (evs : List (Proc × Ev)) : List String :=
     if (pr.2 == "nil" || pr.2 == "put") && !o.log.contains pr.1 then
       some s!"{if pr.2 == "put" then "C17" else "C03"}:Publish of pub{pr.1} returned {pr.2} but Joe never accepted the message for delivery"
     else none
-  (o.viol ++ perSub ++ stray ++ unaccepted).reverse
+  -- C17: Publish returns the replayer's error exactly when this publication's Put returned one; after a panic
+  -- (and when Put stored the message) it returns nil, "as if no replayer were configured"
+  let wrongRet := o.pubRets.filterMap fun pr =>
+    if !o.log.contains pr.1 then none
+    else if pr.2 == "put" && !o.putErrs.contains pr.1 then
+      some s!"C17:Publish of pub{pr.1} returned a replayer error although its Put call returned none"
+    else if pr.2 == "nil" && o.putErrs.contains pr.1 then
+      some s!"C17:Publish of pub{pr.1} returned nil although its Put call returned an error"
+    else none
+  (o.viol ++ perSub ++ stray ++ unaccepted ++ wrongRet).reverse
 
 /-- publications that violate the replayer's ID mode must be rejected by Put, all others accepted -/
 def judgePuts (sc : Scenario) (evs : List (Proc × Ev)) : List String :=
